@@ -221,6 +221,7 @@ package secec
 //@
 //@ func mitigateDebianAndSony
 //@   props C09 C08
+//@   option digits
 //@   split dyn rand sentinelReaderRFC6979 value
 //@   split case result1 == nil
 //@   requires !isnil(k) && !isnil(e)
@@ -328,18 +329,21 @@ package secec
 //@
 //@ func (*drbgRFC6979).updateV
 //@   props C09
+//@   option digits
 //@   ensures len(drbg.v) == 32 && os2ip(drbg.v) == hmac_v(old(os2ip(drbg.k)), old(os2ip(drbg.v)))
 //@   ensures unchanged(drbg.k, drbg.needUpdate)
 //@   modifies drbg.v, drbg.v[:]
 //@
 //@ func (*drbgRFC6979).updateK
 //@   props C09
+//@   option digits
 //@   ensures len(drbg.k) == 32 && os2ip(drbg.k) == hmac_vo(old(os2ip(drbg.k)), old(os2ip(drbg.v)), 0)
 //@   ensures unchanged(drbg.v, drbg.needUpdate)
 //@   modifies drbg.k, drbg.k[:]
 //@
 //@ func (*drbgRFC6979).Read
 //@   props C09
+//@   option digits
 //@   panics len(b) != 32
 //@   split case drbg.needUpdate
 //@   ensures result0 == 32 && result1 == nil && drbg.needUpdate
@@ -350,6 +354,7 @@ package secec
 //@
 //@ func newDrbgRFC6979
 //@   props C09
+//@   option digits
 //@   noalias x, e
 //@   ensures isdyn(result, drbgRFC6979) && !result.(*drbgRFC6979).needUpdate
 //@   ensures os2ip(result.(*drbgRFC6979).k) == hmac_voxh(hmac_voxh(0, drbg_v0(), 0, lift(val(x)), lift(val(e))), hmac_v(hmac_voxh(0, drbg_v0(), 0, lift(val(x)), lift(val(e))), drbg_v0()), 1, lift(val(x)), lift(val(e)))
